@@ -244,10 +244,12 @@ def estimate_diplotype(gene: Gene, solution: MinorSolution) -> str:
     #                 e.g. 1, 2, 13 -> 13+1/2 if [13,1] is a common tandem)
     if len(solution.solution) > 2:
         for ta, tb in gene.common_tandems:
-            while major_dict[ta] and major_dict[tb]:
-                diplotype[dc % 2].append((major_dict[ta][0], major_dict[tb][0]))
+            # a same-number tandem (x, x) pairs two *different* copies of x
+            second = 1 if ta == tb else 0
+            while major_dict[ta] and len(major_dict[tb]) > second:
+                diplotype[dc % 2].append((major_dict[ta][0], major_dict[tb][second]))
                 dc += 1
-                del major_dict[ta][0], major_dict[tb][0]
+                del major_dict[tb][second], major_dict[ta][0]
 
     # Handle duplicates (heuristics that groups duplicate alleles together,
     #                    e.g. 1, 1, 2 -> 1+1/2)
